@@ -36,6 +36,7 @@ type PemFile struct {
 	HashAtTop bool
 	Blocks    []PemBlock
 	Garbage   bool // non-empty text outside blocks other than the hash line
+	Trailing  bool // the only such text comes after the last block
 }
 
 func splitPEM(data []byte) PemFile {
@@ -70,6 +71,9 @@ func splitPEM(data []byte) PemFile {
 			}
 			b, err := base64.StdEncoding.DecodeString(body.String())
 			pf.Blocks = append(pf.Blocks, PemBlock{Type: typ, Bytes: b, Start: start, End: o, OK: err == nil})
+			if pf.Garbage {
+				pf.Trailing = false
+			}
 			off = o
 			i = j + 1
 			first = false
@@ -80,6 +84,9 @@ func splitPEM(data []byte) PemFile {
 			pf.HashAtTop = first
 			pf.HashLine = strings.TrimPrefix(txt, "#HASH:")
 		} else if strings.TrimSpace(txt) != "" {
+			if !pf.Garbage {
+				pf.Trailing = len(pf.Blocks) > 0
+			}
 			pf.Garbage = true
 		}
 		first = false
